@@ -230,7 +230,7 @@ func genD(t *rapid.T) hcfg.D {
 		d.Conversion = append(d.Conversion, cv)
 	}
 	if rapid.IntRange(0, 3).Draw(t, "settings") == 0 {
-		d.Settings = &hcfg.Settings{Interval: rapid.SampledFrom([]string{"30s", "100ms", "1m30s", "2h"}).Draw(t, "interval"), Burst: rapid.IntRange(1, 5).Draw(t, "burst")}
+		d.Settings = &hcfg.Settings{Interval: rapid.SampledFrom([]string{"30s", "100ms", "1m30s", "2h"}).Draw(t, "interval"), Burst: hcfg.I(rapid.IntRange(1, 5).Draw(t, "burst"))}
 	}
 	if d.OnStartup == nil && len(d.Kube)+len(d.Schedules)+len(d.Validating)+len(d.Mutating)+len(d.Conversion) == 0 && d.Settings == nil {
 		d.OnStartup = hcfg.I(1)
@@ -333,7 +333,15 @@ func mutate(m map[string]any, mutant string, near string) bool {
 		if !ok {
 			return false
 		}
-		s["crontab"] = "*/0 * * * *"
+		// a zero step in any field and any spelling the cron library reads as 0
+		zs := []string{"*/0 * * * *", "*/00 * * * *", "*/+0 * * * *", "*/-0 * * * *", "5,10-20/00 * * * *", "* */0 * * *", "* * 1-5/000 * *", "0 0 * */0 *", "*/5 * * * */0", "*/0 * * * * *"}
+		// (which one: a function of the document, so that the case stays a pure function of the generated values)
+		doc, _ := json.Marshal(m)
+		k := 0
+		for _, b := range doc {
+			k += int(b)
+		}
+		s["crontab"] = zs[k%len(zs)]
 	case "include-unknown":
 		s, ok := first(m, "schedule")
 		if !ok {
@@ -619,7 +627,7 @@ func expected(d hcfg.D) map[string]any {
 	out["conversion"] = convs
 	if d.Settings != nil {
 		iv, _ := time.ParseDuration(d.Settings.Interval)
-		out["settings"] = map[string]any{"interval": iv.String(), "burst": float64(d.Settings.Burst)}
+		out["settings"] = map[string]any{"interval": iv.String(), "burst": float64(*d.Settings.Burst)}
 	}
 	return out
 }
@@ -742,7 +750,7 @@ func runCase(c Case) (ev.Info, error) {
 	return info, nil
 }
 
-const rule = "descriptions of v1 hook configurations built from the documented grammar (onStartup, 0-3 schedules, 0-4 kubernetes bindings with every documented option, validating/mutating/conversion bindings, settings, groups and includes among declared names), rendered as JSON and as YAML: both must load, load identically and equal the documented effective configuration (defaults, order, include sets); half of the cases apply one of 22 single-fault mutations, which must be rejected in both renderings without panic. Non-trivial: >= 2 binding kinds or any group/include (valid), every applicable mutant."
+const rule = "descriptions of v1 hook configurations built from the documented grammar (onStartup, 0-3 schedules, 0-4 kubernetes bindings with every documented option, validating/mutating/conversion bindings, settings, groups and includes among declared names), rendered as JSON and as YAML: both must load, load identically and equal the documented effective configuration (defaults, order, include sets); half of the cases apply one of 29 single-fault mutations (among them a crontab whose step is zero, in any field and in the spellings 0, 00, 000, +0, -0), which must be rejected in both renderings without panic and without hanging (watchdog). Non-trivial: >= 2 binding kinds or any group/include (valid), every applicable mutant."
 
 func TestConfig(t *testing.T) {
 	ev.Main(t, ev.Spec[Case]{Property: "C10", Part: "config", Rule: rule, Gen: gen, Run: runCase})
